@@ -57,6 +57,14 @@ def set_sum_hook(h):
     _NORM_MEMO.clear()
 
 
+RET_HOOK = [None]      # optional: callee path -> k when the local function returns its k-th argument unchanged on every path
+
+
+def set_ret_hook(h):
+    RET_HOOK[0] = h
+    _NORM_MEMO.clear()
+
+
 def _norm(t):
     k = t[0]
     if k == 'ok' and isinstance(t[1], tuple) and t[1]:
@@ -80,6 +88,16 @@ def _norm(t):
             x = x[2] if x[0] == 'cast' else x[1]
         if x[0] == 'bin' and x[1].endswith("WithOverflow"):
             return norm(('bin', x[1][:-len("WithOverflow")], x[2], x[3]))
+    if k == 'call' and t[2] and RET_HOOK[0] is not None:
+        kk = RET_HOOK[0](t[1])
+        if kk and kk <= len(t[2]):
+            return norm(t[2][kk - 1])
+    if k == 'call' and len(t[2]) == 1 and re.search(r"PtrGuard(Mut)?::len$", canon(t[1])):
+        g = t[2][0]
+        while g[0] in ('cast', 'ref', 'deref'):
+            g = g[2] if g[0] == 'cast' else g[1]
+        if g[0] == 'call' and len(g[2]) == 1 and re.search(r"VolatileSlice::ptr_guard(_mut)?$", canon(g[1])):
+            return norm(('field', g[2][0], 'size'))        # a slice's guard is as long as the slice (C17 R17.1)
     if k == 'call' and not t[2] and re.search(r"AddressValue::(zero|one)$", canon(t[1])):
         return ('const', 0 if canon(t[1]).endswith("zero") else 1)      # the additive / multiplicative unit of the address value type
     if (k == 'call' and t[2] and canon(t[1]).split("::")[-1] == "len" and _LEN_OWNER.search(canon(t[1]))) or (k == 'un' and t[1] == 'PtrMetadata'):
@@ -91,6 +109,12 @@ def _norm(t):
         return ('len', c)
     if k == 'call' and len(t[2]) == 1 and canon(t[1]).split("::")[-1] == "len" and re.search(r"VolatileSlice|VolatileMemory", canon(t[1])):
         return norm(('field', t[2][0], 'size'))         # VolatileSlice::len() is the getter of `size`
+    if k == 'field' and t[2] == 'len' and isinstance(t[1], tuple):
+        g = t[1]
+        while g[0] in ('cast', 'ref', 'deref') or (g[0] == 'field' and g[2] == '0'):
+            g = g[2] if g[0] == 'cast' else g[1]
+        if g[0] == 'call' and len(g[2]) == 1 and re.search(r"VolatileSlice::ptr_guard(_mut)?$", canon(g[1])):
+            return norm(('field', g[2][0], 'size'))        # the `len` field of a slice's guard (getter inlined; PtrGuardMut wraps PtrGuard)
     if k == 'field' and t[2] == 'size':
         x = norm(t[1])
         if x[0] == 'ok' and x[1][0] == 'call' and len(x[1][2]) == 3 and canon(x[1][1]).endswith("VolatileSlice::subslice"):
@@ -588,6 +612,23 @@ class Bounds:
             return True
         if _is(a, "div_ceil") and len(a[2]) == 2 and self.nonzero(_args(a)[0]):
             return True
+        return False
+
+    def refutes(self, op, x, y):
+        """the comparison `x op y` cannot hold"""
+        x, y = norm(x), norm(y)
+        if op == 'Gt':
+            return self.le(x, y)
+        if op == 'Ge':
+            return self.lt(x, y)
+        if op == 'Lt':
+            return self.le(y, x)
+        if op == 'Le':
+            return self.lt(y, x)
+        if op == 'Ne':
+            return x == y or (self.le(x, y) and self.le(y, x))
+        if op == 'Eq':
+            return self.lt(x, y) or self.lt(y, x)
         return False
 
     # ------------------------------------------------------------------ edge lemmas
